@@ -51,14 +51,13 @@ QUICK = [
     ("pair-sim", dict(depths="{1,2,3}", rows=3, total=12, garbage=1, validity="any", zero="FALSE", mode="pair"), "num=1500"),
 ]
 THOROUGH = [
-    ("single-d012", dict(depths="{0,1,2}", rows=6, total=7, garbage=1, validity="any", zero="TRUE", mode="single"), None),
-    ("single-d3", dict(depths="{3}", rows=6, total=6, garbage=1, validity="any", zero="FALSE", mode="single"), None),
+    ("single-d012", dict(depths="{0,1,2}", rows=6, total=6, garbage=1, validity="any", zero="TRUE", mode="single"), None),
+    ("single-d3", dict(depths="{3}", rows=6, total=5, garbage=1, validity="any", zero="FALSE", mode="single"), None),
     ("pair-allvalid", dict(depths="{2,3}", rows=2, total=9, garbage=0, validity="none", zero="FALSE", mode="pair"), None),
-    ("pair-small", dict(depths="{1,2}", rows=1, total=6, garbage=1, validity="any", zero="FALSE", mode="pair"), None),
+    ("pair-small", dict(depths="{1,2}", rows=1, total=6, garbage=0, validity="any", zero="FALSE", mode="pair"), None),
     ("pair-sim", dict(depths="{1,2,3}", rows=4, total=14, garbage=1, validity="any", zero="TRUE", mode="pair"), "num=20000"),
     ("single-sim", dict(depths="{1,2,3}", rows=6, total=16, garbage=1, validity="any", zero="TRUE", mode="single"), "num=10000"),
 ]
-
 
 
 def _scenarios(out_path):
@@ -224,7 +223,8 @@ def run(prop, tier, replay):
                        {"mode": mode, "event": short})
         if len(samples) < 6 and rep["events"]:
             with open(tf) as f:
-                first = json.loads(f.readline())
+                every = f.read().splitlines()
+            first = json.loads(every[(2 * len(every)) // 3])
             first = {k: first[k] for k in first if k not in ("cw", "slice")}
             if "reads" in first:
                 first["reads"] = first["reads"][:2]
